@@ -77,6 +77,12 @@ def xDirDomain (names : List Bytes) (all : List Seq) : Bool :=
 
 def xDir : Bytes := "/T/d".toList
 
+/-- the scanned directory: T/d unless the op names it -/
+def xDirOf (rest : List String) : Bytes :=
+  match rest with
+  | [h] => let n := unhex h; if n.isEmpty then xDir else "/T/".toList ++ n
+  | _ => xDir
+
 def dispatchX : List String → Option (Obs × Option Obs)
   | ["x.fs", txt, _ast, qi, qv] =>
     let txt := unhex txt
@@ -147,7 +153,8 @@ def dispatchX : List String → Option (Obs × Option Obs)
       if named && framed && rangeOk && !longDigits txt then
         some (xSeqFields s (Cpp.seqLen s) qf qi, some (xSeqFields s s.len qf qi))
       else some (skipObs, none)
-  | ["x.scan", mask, st, ents] =>
+  | "x.scan" :: mask :: st :: ents :: rest =>
+    let xDir := xDirOf rest
     let entries := parseEntries ents
     let names := entries.map (·.name)
     let d : DirSpec := some entries
@@ -160,7 +167,8 @@ def dispatchX : List String → Option (Obs × Option Obs)
     | .ok seqs =>
       let ob : Obs := ("err", "ok") :: xSeqsObs seqs
       some (ob, some ob)
-  | ["x.find", st, pat, ents] =>
+  | "x.find" :: st :: pat :: ents :: rest =>
+    let xDir := xDirOf rest
     let st := styleOf st
     let pat := xDir ++ '/' :: unhex pat
     let entries := parseEntries ents
